@@ -52,18 +52,44 @@ Lemma T_bin_unfold c l r :
 Proof. destruct l, r; reflexivity. Qed.
 
 (* BinOpExpr: f'({lhs} {op} {rhs})' with a negative literal on the left of **
-   parenthesised *)
-Lemma T_bin c l r s : existsb (N.eqb c) bin_classes = true -> op_str c = Some s ->
+   parenthesised (every operator class except the deferred comparisons) *)
+Lemma T_bin c l r s : existsb (N.eqb c) bin_classes = true -> op_str c = Some s -> is_eq_op s = false ->
   T (TBin c l r) =
   K "(" :: (if is_op s "**" && negb (sh_isref (shx l)) && toks_prefix [K "-"] (ostr l)
             then K "(" :: ostr l ++ [K ")"] else ostr l)
         ++ KOp s :: ostr r ++ [K ")"].
 Proof.
-  intros Hc Hs. rewrite T_bin_unfold. cbn in Hc.
+  intros Hc Hs He. rewrite T_bin_unfold. cbn in Hc.
   repeat (apply orb_true_iff in Hc as [Hc|Hc];
-          [apply N.eqb_eq in Hc; subst c; injection Hs as <-; cbn; unfold ostr, K;
+          [apply N.eqb_eq in Hc; subst c; injection Hs as <-; try discriminate He; cbn; unfold ostr, K;
            repeat (match goal with |- context [if ?b then _ else _] => destruct b end);
            cbn; rewrite ?app_nil_r, <- ?app_assoc; reflexivity|]).
+  discriminate Hc.
+Qed.
+
+(* the method that builds the deferred comparison printed by EqExpr / NeExpr *)
+Definition eq_method (s : pystr) : pystr := if pystr_eqb s (s2p "==") then s2p "_eq" else s2p "_neq".
+
+(* EqExpr / NeExpr: f'({lhs})._eq({rhs})' / f'({lhs})._neq({rhs})' *)
+Lemma T_eq c l r s : existsb (N.eqb c) bin_classes = true -> op_str c = Some s -> is_eq_op s = true ->
+  T (TBin c l r) = K "(" :: ostr l ++ K ")" :: K "." :: KName (eq_method s) :: K "(" :: ostr r ++ [K ")"].
+Proof.
+  intros Hc Hs He. rewrite T_bin_unfold. cbn in Hc.
+  repeat (apply orb_true_iff in Hc as [Hc|Hc];
+          [apply N.eqb_eq in Hc; subst c; injection Hs as <-; try discriminate He; cbn; unfold ostr, K;
+           cbn; rewrite ?app_nil_r, <- ?app_assoc; reflexivity|]).
+  discriminate Hc.
+Qed.
+
+(* ref._eq(x) / ref._neq(x) build the class that prints them *)
+Lemma call_method_ok c s l r : existsb (N.eqb c) bin_classes = true -> op_str c = Some s -> is_eq_op s = true ->
+  is_ref l = true ->
+  call_method (eq_method s) l r = Some (TBin c l r) /\ is_method (eq_method s) = true.
+Proof.
+  intros Hc Hs He Hl. cbn in Hc.
+  repeat (apply orb_true_iff in Hc as [Hc|Hc];
+          [apply N.eqb_eq in Hc; subst c; injection Hs as <-; try discriminate He;
+           unfold call_method; rewrite Hl; split; reflexivity|]).
   discriminate Hc.
 Qed.
 
